@@ -56,6 +56,8 @@ func init() {
 	c06Compact = eng.NewKind(c, "compact", judgeCompact)
 	c06Preset = eng.NewKind(c, "preset-locals", judgePreset)
 	c06Ctx = eng.NewKind(c, "context", judgeCtx)
+	c06Same = eng.NewKind(c, "same-spelling", judgeSame)
+	c06Reuse = eng.NewKind(c, "tree-reuse", judgeReuse)
 }
 
 var selVals []cval
@@ -385,6 +387,112 @@ var c06Ctx *eng.Kind[ObsCase]
 // c06NilCtx: a pointer type that implements context.Context; a nil pointer of it is a typed nil
 type c06NilCtx struct{ context.Context }
 
+// SameCase: a selection whose two operands are spelled alike (Form with %A and %B, both replaced by
+// Spell) against the same selection with the second operand spelled differently (an alias of the
+// same stateful host function): value and number of invocations must not depend on the spelling.
+type SameCase struct {
+	Form  string `json:"form"`
+	Spell string `json:"spell"` // text of operand A; B is the same text (or its alias, for the comparison)
+	Alias string `json:"alias"`
+	Start int    `json:"start"` // the counter's first value
+}
+
+var c06Same *eng.Kind[SameCase]
+
+func judgeSame(c SameCase) *eng.Fail {
+	run := func(a, b string) (string, int, *eng.Fail) {
+		n := c.Start - 1
+		calls := 0
+		next := func(xs ...interface{}) (interface{}, error) { n++; calls++; return float64(n), nil }
+		data := map[string]interface{}{"next": next, "nxt2": next, "m": map[string]interface{}{"next": next, "nxt2": next}}
+		src := strings.Replace(strings.Replace(c.Form, "%A", a, -1), "%B", b, -1)
+		o, err := evalWith(src, data)
+		if err != nil || o.panicked || o.err != nil {
+			return "", 0, eng.F("C06/eval", "%s: %v %v %s", src, err, o.err, o.panicMsg)
+		}
+		return src + " = " + show(o.val), calls, nil
+	}
+	same, sc, f := run(c.Spell, c.Spell)
+	if f != nil {
+		return f
+	}
+	diff, dc, f := run(c.Spell, c.Alias)
+	if f != nil {
+		return f
+	}
+	if same[strings.LastIndex(same, " = "):] != diff[strings.LastIndex(diff, " = "):] || sc != dc {
+		return eng.F("C06/branch-spelled-like-condition", "counter starting at %d: %s after %d invocations, but %s after %d invocations (the second function is the first under another name)", c.Start, same, sc, diff, dc)
+	}
+	outcome(fmt.Sprint("same ", c.Form, c.Start, sc))
+	return nil
+}
+
+// ReuseCase: one parsed tree evaluated under a sequence of inputs (context kind, value of c); each result
+// must be what a freshly parsed tree gives for that input alone.
+type ReuseCase struct {
+	Src    string `json:"src"`
+	Inputs []int  `json:"inputs"` // indices into c06ReuseInputs
+	OneRun bool   `json:"one_runner"`
+}
+
+var c06Reuse *eng.Kind[ReuseCase]
+
+type c06Input struct {
+	ctx  string
+	c    interface{}
+	name string
+}
+
+var c06ReuseInputs = func() []c06Input {
+	var in []c06Input
+	for _, k := range []string{"none", "typed-nil", "object"} {
+		for i, v := range []interface{}{nil, 0.0, 1.0, "", "a", false, true} {
+			in = append(in, c06Input{k, v, fmt.Sprintf("%s/c%d", k, i)})
+		}
+	}
+	return in
+}()
+
+func judgeReuse(c ReuseCase) *eng.Fail {
+	ctxOf := func(k string) context.Context {
+		switch k {
+		case "typed-nil":
+			return (*c06NilCtx)(nil)
+		case "object":
+			return context.Background()
+		}
+		return nil
+	}
+	p := safeParse([]byte(c.Src))
+	if p.panicked || p.err != nil {
+		return eng.F("harness/case", "%s does not parse: %v", c.Src, p.err)
+	}
+	shared := formula.NewRunner()
+	var hist []string
+	for _, ix := range c.Inputs {
+		in := c06ReuseInputs[ix]
+		fp := safeParse([]byte(c.Src))
+		fr := formula.NewRunner()
+		fr.SetThis(map[string]interface{}{"c": in.c, "x": in.c})
+		fresh := safeResolve(fr, ctxOf(in.ctx), fp.src.Expression)
+		r := shared
+		if !c.OneRun {
+			r = formula.NewRunner()
+		}
+		r.SetThis(map[string]interface{}{"c": in.c, "x": in.c})
+		o := safeResolve(r, ctxOf(in.ctx), p.src.Expression)
+		if o.panicked || fresh.panicked {
+			return eng.F("C06/panic", "%s: %s%s", c.Src, o.panicMsg, fresh.panicMsg)
+		}
+		if (o.err == nil) != (fresh.err == nil) || show(o.val) != show(fresh.val) {
+			return eng.F("C06/decision-remembered", "%s, one tree evaluated under %v and then under %s: %s (%v); a freshly parsed tree under %s gives %s (%v)", c.Src, hist, in.name, show(o.val), o.err, in.name, show(fresh.val), fresh.err)
+		}
+		hist = append(hist, in.name)
+	}
+	outcome("reuse " + c.Src)
+	return nil
+}
+
 // judgeCtx: the keyword ctx under a context that is null (no context, or a typed nil pointer) or an object.
 func judgeCtx(c ObsCase) *eng.Fail {
 	var ctx context.Context
@@ -668,6 +776,49 @@ func runC06(w *eng.W) {
 			w.Trace(1)
 			w.Note("leg:context", 1)
 			c06Ctx.Do(w, ObsCase{E: k})
+		}
+	}
+	// a branch or right operand spelled exactly like the condition (a stateful host function): evaluated
+	// like any other - compared with the same formula in which it is spelled differently
+	for _, form := range []string{"%A ? %B : 0", "%A ? 0 : %B", "%A ? %B : %B", "%A && %B", "%A || %B", "%A ?? %B", "[%A, %B]", "%A ? (%B) : 0", "(%A) ? %B : 0", "!%A ? 0 : %B", "!!%A && %B", "%A ? %A ? %B : 1 : 2",
+		"(%A || %B) ? %B : 3", "%A ? [%B] : []", "%A + 0 ? %B : 0", "%A ? %B + 0 : 0", "1 ? %A ? %B : 4 : 5", "%A == %B", "%A ?? %B ?? %B", "%A && %B || %B"} {
+		if !w.Take() {
+			continue
+		}
+		for _, sp := range [][2]string{{"next()", "nxt2()"}, {"(next())", "(nxt2())"}, {"m.next()", "m.nxt2()"}, {"next(1)", "nxt2(1)"}, {"next(1, 'a')", "nxt2(1, 'a')"}, {"m.next(m)", "m.nxt2(m)"}, {"next([1]...)", "nxt2([1]...)"}, {"next(next())", "next(nxt2())"}} {
+			for start := 0; start <= 2; start++ {
+				w.State(2)
+				w.Trans(2)
+				w.Trace(1)
+				w.Note("leg:same-spelling", 1)
+				c := SameCase{Form: form, Spell: sp[0], Alias: sp[1], Start: start}
+				w.Sample("same-spelling", c)
+				c06Same.Do(w, c)
+			}
+		}
+	}
+	// one parsed tree under changing inputs (the context kind and the value of a name): every pair of
+	// inputs in both orders and the triples that return to the first, on fresh runners and on one runner
+	for _, src := range []string{"ctx ? 1 : 2", "[!!ctx, ctx ? 1 : 2, ctx ?? 'd', ctx || 'd', (ctx && 1) == null, !ctx]", "c ? 1 : 2", "[!!c, c ? 1 : 2, c ?? 'd', c || 'd', c && 1, !c]", "c ? (ctx ? 1 : 2) : (ctx ? 3 : 4)",
+		"this.c ? 1 : 2", "(c) ? 1 : 2", "!c ? 1 : 2", "(ctx) ? 1 : 2", "c ?? ctx ?? 'none'", "true ? c : ctx", "null ?? (ctx ? 'C' : 'N')", "$l = ctx, $l ? 1 : 2", "0 ? 1 : ctx ? 2 : 3", "typeof (ctx ? 1 : 'a')", "[ctx ? c : 0, c ? !!ctx : 0]"} {
+		if !w.Take() {
+			continue
+		}
+		ni := len(c06ReuseInputs)
+		for a := 0; a < ni; a++ {
+			for b := 0; b < ni; b++ {
+				for _, one := range []bool{false, true} {
+					for _, seq := range [][]int{{a, b}, {a, b, a}} {
+						w.State(int64(len(seq)))
+						w.Trans(int64(len(seq)))
+						w.Trace(1)
+						w.Note("leg:tree-reuse", 1)
+						c := ReuseCase{Src: src, Inputs: seq, OneRun: one}
+						w.Sample("tree-reuse", c)
+						c06Reuse.Do(w, c)
+					}
+				}
+			}
 		}
 	}
 	// locals that the caller supplied (or an earlier evaluation left) and assignments in branches that
